@@ -124,6 +124,15 @@ def derive_file(b):
     return "/options/" in f or "/codegen/" in f or f.endswith("derive.rs") or "/usage/" in f or f.endswith("macros_private.rs")
 
 
+def owner_key(key):
+    """table rows name a function; a site in one of its closures (at any depth, whatever its
+    number) belongs to the same row"""
+    return re.sub(r"(::\{closure#\d+\})+$", "", key)
+
+
+PANIC_TABLE = {(owner_key(fn), kind): row for (fn, kind), row in PANIC_TABLE.items()}
+
+
 def census_sites(ctx, bodies):
     """(body, blk, kind, detail) for every panic-capable site of `bodies` (asserts added by debug
     pointer checks and full-range indexing excluded)."""
@@ -176,7 +185,7 @@ def panic_census(ctx, rule, bodies, scope):
     sites = census_sites(ctx, bodies)
     counts = {}
     for b, blk, kind, detail in sites:
-        counts.setdefault((b.key, kind), []).append((b, blk, detail))
+        counts.setdefault((owner_key(b.key), kind), []).append((b, blk, detail))
     for (fn, kind), lst in sorted(counts.items()):
         row = PANIC_TABLE.get((fn, kind))
         if row is None:
@@ -225,7 +234,7 @@ def exhaustive_wildcards(ctx, rule, bodies):
             kind = scan.reaches_panic(b, other)
             if kind != "panic":
                 continue
-            row = PANIC_TABLE.get((b.key, "panic"), {})
+            row = PANIC_TABLE.get((owner_key(b.key), "panic"), {})
             if row and not row.get("exhaustive"):
                 continue  # guarded by a who-calls rule or already reported by the census
             n += 1
